@@ -916,8 +916,11 @@ def run_raw_case(ctx, case) -> None:
                 await asyncio.sleep(1.0)
                 w[0].host.on('l2cap_pdu', lambda h, cid, p: delivered.append((cid if h == conn.handle else -2, bytes(p))))
                 queue = peer.host.connections[peer.handle].acl_packet_queue
-                if queue.max_packet_size != pg[0]:
-                    raise HarnessError('raw peer did not learn its controller geometry')
+                if queue.max_packet_size > pg[0]:
+                    # the host fragments for a buffer larger than the one its controller advertised for this link
+                    state['queue_geometry'] = (queue.max_packet_size, pg[0])
+                    return
+                state['f_host'] = queue.max_packet_size  # (smaller than advertised: fragments still fit; the model follows)
                 state['phase'] = 'send'
                 for it in items:
                     if it[0] == 'host':
@@ -976,12 +979,15 @@ def run_raw_case(ctx, case) -> None:
                     labels.add('hand_cut_pdu')
         if raised:
             labels.add('exception_on_feed')
-        if outcome == 'budget':
+        if 'queue_geometry' in state:
+            fail('frag/host_queue_geometry', f'the host fragments LE ACL data for packets of {state["queue_geometry"][0]} bytes, its '
+                                             f'controller advertised an LE ACL data length of {state["queue_geometry"][1]}')
+        elif outcome == 'budget':
             labels.add('iteration_budget_hit')
         elif outcome is not None:
             fail(f'malformed/hang/{target}/{outcome}', f'phase {state["phase"]}: {outcome}')
         else:
-            judge_raw(script, items, goods, delivered, raised, model_frags(pg[0]), target, fail)
+            judge_raw(script, items, goods, delivered, raised, model_frags(state.get('f_host', pg[0])), target, fail)
         ctx.case((target, start_pb, pg, dg, script), bad_before_pdu, labels,
                  sample={'target': target, 'script': script[:6]})
     finally:
